@@ -310,6 +310,22 @@ def gen_case(rng, tier, ctx, i):
         from . import common
         ctx.count("count:configurator-any-xor")
         return {"route": "ctor", "recipe": common.cc_case(rng, boolean=True), "seed": rng.getrandbits(32)}
+    if rng.random() < 0.04:
+        # a connective over "at least one of P" and "at most one of P" (the two halves an exactly-one is made of) as its ordinary arguments
+        P = [{"k": "var", "id": i, "b": [0, 1]} for i in rng.sample("abcde", rng.randint(2, 3))]
+        cp = lambda: [dict(a) for a in P]
+        lo = rng.choice([{"k": "Any", "id": None, "args": cp()}, {"k": "AtLeast", "id": None, "args": cp(), "value": 1}])
+        hi = {"k": "AtMost", "id": None, "args": cp(), "value": 1}
+        args = [lo, hi]
+        rng.shuffle(args)
+        top = rng.choice(["Xor", "ExactlyOne", "XNor", "Xor", "All", "Any", "Imply"])
+        if top not in ("Imply",) and rng.random() < 0.3:
+            args.append({"k": "var", "id": "q", "b": [0, 1]})
+        rec = {"k": top, "id": rng.choice([None, "T"]), "args": args}
+        if rng.random() < 0.3:
+            rec = {"k": rng.choice(["Not", "All"]), "id": None, "args": [rec]}
+        ctx.count("count:halves-of-exactly-one-as-arguments")
+        return {"route": rng.choice(["ctor", "json", "both"]), "recipe": rec, "seed": rng.getrandbits(32)}
     if r < 0.25:
         return {"route": "cicJE", "rule": gen_cicje(rng)}
     if r < 0.33:
